@@ -99,7 +99,7 @@ def main():
         if k == 2:
             return "q&q.a>>1"
         if k == 3:
-            return "q&q.a>'z'"
+            return rng.choice(["q&q.a>'z'", "lz&lz.k>'z'", "lz&lz.v<abc", "lz.k&lz.k>0&lz.v<'a'", "lz&lz.zz>1", "lz&lz.k>\"s\""])
         if k == 4:
             return "q&q.zz>1"
         if k == 5:
@@ -122,6 +122,11 @@ def main():
 
     paths_ok = ["/d.dds", "/d.das", "/d.dods", "/d.ascii", "/d.asc", "/d.ver", "/d.html", "/.dods", "/deep/er/d.dods", "/d.x.dods"]
     paths_odd = ["/d", "/", "", "/d.", "/d.xyz", "/d.DODS", "/.", "/d.dods/", "/d dods", "/d.dods.", "/d..dds", "/d.json", "/d.nc"]
+
+    def lz_selects_nothing(ce):
+        """the listed known finding is exactly: a record range on the lazy sequence lz that starts beyond its 2 records"""
+        m = re.search(r"lz(?:\.\w+)?\[(\d+)(?::\d+){0,2}\]", ce)
+        return bool(m) and int(m.group(1)) >= 2 and "&" not in ce
 
     n = 700 if T == "quick" else 8000
     direct, dist = [], {}
@@ -169,7 +174,7 @@ def main():
                 outcome = "other-status:%s" % res.status
         key = outcome.split(":")[0]
         dist[key] = dist.get(key, 0) + 1
-        if outcome.startswith("raised-reading-body:RuntimeError") and "lz" in ce and "C15-empty-lazy-sequence" in kf:
+        if outcome.startswith("raised-reading-body:RuntimeError") and lz_selects_nothing(ce) and "C15-empty-lazy-sequence" in kf:
             known_hits["C15-empty-lazy-sequence"] = url
             continue
         if outcome not in ("200", "error-doc"):
@@ -197,6 +202,15 @@ def main():
         if still:
             r.known_finding("a lazy (IterData) sequence whose constraint selects no record raises while the body is produced "
                             "(GET /d.ascii?lz[9999]: RuntimeError from the type inference of an empty lazy sequence)")
+    if "C15-dmr-of-dap2-dataset" in kf:
+        try:
+            Request.blank("/d.dmr").get_response(apps["plain"]).body
+            still = False
+        except (AttributeError, TypeError):
+            still = True
+        if still:
+            r.known_finding("GET /d.dmr on a dataset without DAP4 dimensions / with Structure or Sequence members raises while the DMR "
+                            "body is iterated (AttributeError 'dimensions' / TypeError), outside the handler's try block")
     seen = set()
     for d in direct:
         k = (d["outcome"], d["request"].split("?")[0].rsplit(".", 1)[-1])
